@@ -12,4 +12,5 @@ git checkout -q wt-MUT 2>/dev/null || true
 git reset -q --hard main
 sed -i "s#/repo/patronus#$R/patronus#g" harness/Cargo.toml
 cp -f "$R/Cargo.lock" harness/Cargo.lock 2>/dev/null || cp -f /repo/Cargo.lock harness/Cargo.lock
+python3 tools/gen_coqproject.py && (cd coq && timeout 3000 make -j16 >/dev/null 2>&1 || true)
 ./check "$P" "$T" 2>&1 | grep -v "^KNOWN-FINDING" | tail -3
